@@ -61,6 +61,12 @@ def parse_mir(text, crate):
     i, n = 0, len(lines)
     while i < n:
         l = lines[i]
+        m1 = re.match(r"(?:const|static) ([^=]+?): ([^=]+?) = (const .*);$", l)
+        if m1:
+            f = Fn(m1.group(1).strip(), [], m1.group(2).strip(), {"_0": m1.group(2).strip()}, {"bb0": ["_0 = " + m1.group(3), "return"]}, crate, True)
+            fns[f.name] = f
+            i += 1
+            continue
         is_fn = l.startswith("fn ") and l.rstrip().endswith("{")
         is_const = (l.startswith("const ") or l.startswith("static ")) and l.rstrip().endswith("= {")
         if is_fn or is_const:
